@@ -96,6 +96,9 @@ structure State where
   /-- ghost: the job has dropped every checkpoint id ≤ floor -/
   floor : Nat := 0
   nextId : Nat := 1
+  /-- instances that have saved their checkpoints document at least once (a restored instance has none until its
+  first checkpoint or retention update) -/
+  docs : List Nat := []
 deriving Repr
 
 /-! ## reachability of table objects -/
@@ -122,6 +125,15 @@ def ckptIncludes (c : Ckpt) (u : Path) : Bool :=
 def needsTable (i : Inst) (u : Path) : Bool :=
   i.ckpts.any (fun c => ckptIncludes c u) || (Facts.c09NeedsChecksLive == 1 && (uris i.current).contains u)
 
+/-- `DB.NeedsTable` is two reads that are not atomic together: the live level list (under `db.mu`) and the checkpoint
+list (under its own mutex). Checkpoints and compaction commits can land in between, so the two reads may see
+different states `x1`, `x2` of the instance. The order of the reads is read from the source. -/
+def readLive (x : Inst) (u : Path) : Bool := Facts.c09NeedsChecksLive == 1 && (uris x.current).contains u
+def readCkpts (x : Inst) (u : Path) : Bool := x.ckpts.any (fun c => ckptIncludes c u)
+def needsFirst (x : Inst) (u : Path) : Bool := if Facts.c09NeedsLiveFirst == 1 then readLive x u else readCkpts x u
+def needsSecond (x : Inst) (u : Path) : Bool := if Facts.c09NeedsLiveFirst == 1 then readCkpts x u else readLive x u
+def needsTable2 (x1 x2 : Inst) (u : Path) : Bool := needsFirst x1 u || needsSecond x2 u
+
 /-- the answers that count: a neighbour whose range does not overlap the table is not asked
 (`neighborPartition.NeedsTable`) -/
 def effective (t : Tbl) (nbrs : List (KGRange × Ans)) : List Ans :=
@@ -140,7 +152,8 @@ def decision (own : KGRange) (t : Tbl) (nbrs : List (KGRange × Ans)) : Decision
 
 inductive Act where
   | openFresh (range : KGRange) (gen : Nat) (nbrs : List KGRange)
-  | openFrom (range : KGRange) (gen : Nat) (nbrs : List KGRange) (w id : Nat)
+  /-- restore from checkpoint `id` of the documents of the writers `ws` (several after a scale-in) -/
+  | openFrom (range : KGRange) (gen : Nat) (nbrs : List KGRange) (ws : List Nat) (id : Nat)
   | flush (i : Nat) (t : Tbl)
   | compact (i : Nat) (rm : List Path) (add : List Tbl)
   | ckpt (i id : Nat) (wal : Path)
@@ -178,21 +191,34 @@ def writerAlive (s : State) (w : Nat) : Bool :=
   | some x => x.life = .alive
   | none => false
 
+/-- the entry for checkpoint `id` in the document of instance `w` (its checkpoint list as last saved) -/
+def docEntry (s : State) (w id : Nat) : Option Ckpt :=
+  match s.insts[w]? with
+  | none => none
+  | some wi => if s.docs.contains w then wi.ckpts.find? (fun c => c.id == id) else none
+
+/-- tables and WAL handles of the composite checkpoint, in handle order; `none` if a document lacks the id -/
+def gather (s : State) : List Nat → Nat → Option (List Tbl × List Path)
+  | [], _ => some ([], [])
+  | w :: ws, id =>
+    match docEntry s w id, gather s ws id with
+    | some c, some (ts, wl) => some (c.tables ++ ts, c.wals ++ wl)
+    | _, _ => none
+
 def step (s : State) : Act → Option State
   | .openFresh range gen nbrs =>
     some { s with insts := s.insts ++ [{ gen := gen, range := range, nbrs := nbrs }] }
-  | .openFrom range gen nbrs w id =>
-    match s.insts[w]? with
-    | none => none
-    | some wi =>
-      match wi.ckpts.find? (fun c => c.id == id) with
-      | none => none
-      | some c =>
-        some { s with
-          insts := s.insts ++ [{ gen := gen, range := range, nbrs := nbrs, current := c.tables, loaded := c.tables,
-                                 ckpts := [⟨id, c.tables, c.wals, true⟩], src := some id }],
-          -- ghost: restarting from checkpoint `id` abandons the newer checkpoints of writers that are gone
-          retained := s.retained.filter fun h => h.id ≤ id || writerAlive s h.writer }
+  | .openFrom range gen nbrs ws id =>
+    -- `recovery.LoadCheckpointList`: the entries with the handle's id of every document, merged into one checkpoint
+    match ws, gather s ws id with
+    | [], _ => none
+    | _ :: _, none => none
+    | _ :: _, some (ts, wl) =>
+      some { s with
+        insts := s.insts ++ [{ gen := gen, range := range, nbrs := nbrs, current := ts, loaded := ts,
+                               ckpts := [⟨id, ts, wl, true⟩], src := some id }],
+        -- ghost: restarting from checkpoint `id` abandons the newer checkpoints of writers that are gone
+        retained := s.retained.filter fun h => h.id ≤ id || writerAlive s h.writer }
   | .flush i t =>
     match s.insts[i]? with
     | none => none
@@ -217,7 +243,8 @@ def step (s : State) : Act → Option State
       if x.life = .alive ∧ s.floor < id ∧ x.ckpts.all (fun c => c.id != id) ∧ ¬ s.used.contains wal then
         some { setInst s i { x with ckpts := x.ckpts ++ [⟨id, x.current, [wal], false⟩] } with
                files := .wal wal :: s.files, used := wal :: s.used,
-               retained := ⟨i, id, x.current, [wal]⟩ :: s.retained, nextId := max s.nextId (id + 1) }
+               retained := ⟨i, id, x.current, [wal]⟩ :: s.retained, nextId := max s.nextId (id + 1),
+               docs := i :: s.docs }
       else none
   | .jobDrop k =>
     if k < s.nextId then
@@ -229,7 +256,7 @@ def step (s : State) : Act → Option State
     | some x =>
       if x.life = .alive ∧ keptOf x.ckpts ids ≠ [] then
         some { setInst s i { x with ckpts := keptOf x.ckpts ids } with
-               files := rmWals s.files (walsOf (droppedOf x.ckpts ids)) }
+               files := rmWals s.files (walsOf (droppedOf x.ckpts ids)), docs := i :: s.docs }
       else none
   | .snap i =>
     match s.insts[i]? with
@@ -321,5 +348,38 @@ def runIn (s : State) : List Act → Option State
 
 def init1 (range : KGRange) (nbrs : List KGRange) : State :=
   { insts := [{ range := range, nbrs := nbrs }] }
+
+
+/-! ## scope of the lineage theorem: one running instance at a time, any number of crash + reopen generations -/
+
+def noneAlive (s : State) : Bool := s.insts.all fun x => decide (x.life ≠ .alive)
+
+def aliveAt (s : State) (i : Nat) : Bool :=
+  match s.insts[i]? with
+  | some x => decide (x.life = .alive)
+  | none => false
+
+/-- * an instance is opened only when no other is running — empty when the job has no checkpoint, otherwise from ONE
+  checkpoint handle the job still retains;
+* no instance is released inside a living process (D25), and a dead process runs no cleanups;
+* the job asks an operator to drop only checkpoints it has dropped (oldest first: `jobDrop`). -/
+def inScopeL (s : State) : Act → Bool
+  | .openFresh .. => noneAlive s && s.retained.isEmpty
+  | .openFrom _ _ _ ws id =>
+    noneAlive s && (match ws with
+      | [w] => s.retained.any fun h => h.writer == w && h.id == id
+      | _ => false)
+  | .release _ => false
+  | .retain i ids => retainOk s i ids
+  | .collect i _ _ => aliveAt s i
+  | _ => true
+
+def runL (s : State) : List Act → Option State
+  | [] => some s
+  | a :: as => if inScopeL s a then
+      match step s a with
+      | some s' => runL s' as
+      | none => none
+    else none
 
 end Rxn.Files
